@@ -1041,7 +1041,7 @@ impl Case {
 /// accepted value is resident or was handed back exactly once (C08).  Not compared with the model.
 pub fn suite_stress(t: &mut Trace, seed: u64, rounds: u64) -> String {
     use std::sync::atomic::{AtomicU64, Ordering as AO};
-    stretto::verif::install(None);
+    stretto::verif::install(Some(Arc::new(crate::sched::Chaos(std::sync::atomic::AtomicU64::new(seed)))));
     verif::set_sync_ticker(None);
     verif::set_async_ticker(None);
     let mut fails: Vec<(&str, u64, String)> = Vec::new();
@@ -1182,12 +1182,127 @@ pub fn suite_stress(t: &mut Trace, seed: u64, rounds: u64) -> String {
         t.mark_nontrivial();
         let _ = do_op(&ck, &Op::Close);
     }
+    // ---- lifecycle under real parallelism: clear / wait / insert / remove from several threads while
+    // another thread closes the cache.  Everybody must come back (C10, C11, C12: nothing blocks for
+    // ever, whatever the race between an operation's is_closed check and its send), and once close()
+    // has returned the cache is inert.
+    for lround in 0..rounds * 24 {
+        let is_async = lround % 2 == 0;
+        // one round in six: long random loops; the others: a burst — every thread makes one call,
+        // released at the same instant as close(), so that some of them are between their is_closed
+        // check and their send when the flag is published
+        if fails.len() > 8 {
+            // enough evidence; every blocked round costs its whole timeout
+            break;
+        }
+        let burst = lround % 6 != 0;
+        // half of the bursts are clear() only, from six threads: signals pile up around the closer's own
+        let storm = burst && lround % 3 == 1;
+        let round = rounds + lround;
+        let buf_cap = *rng.pick(&[1usize, 2, 8]);
+        let nthreads = if storm { 6 } else { rng.range(3, 6) as usize };
+        let cb = Cb::default();
+        let ck = Arc::new(if is_async {
+            CK::A(AsyncCacheBuilder::new_with_key_builder(64, 20, TableKB)
+                .set_coster(Co(0)).set_update_validator(Va(0)).set_callback(cb.clone())
+                .set_metrics(true).set_ignore_internal_cost(true).set_buffer_size(buf_cap)
+                .set_hasher(SeedBH(seed ^ round))
+                .finalize(spawner).expect("async cache"))
+        } else {
+            CK::S(CacheBuilder::new_with_key_builder(64, 20, TableKB)
+                .set_coster(Co(0)).set_update_validator(Va(0)).set_callback(cb.clone())
+                .set_metrics(true).set_ignore_internal_cost(true).set_buffer_size(buf_cap)
+                .set_hasher(SeedBH(seed ^ round))
+                .finalize().expect("sync cache"))
+        });
+        t.case(round, "stress");
+        // per thread: 0 = finished, otherwise the code of the operation it is inside
+        let state: Arc<Vec<AtomicU64>> = Arc::new((0..nthreads + 1).map(|_| AtomicU64::new(9)).collect());
+        let go = Arc::new(AtomicU64::new(0));
+        for th in 0..nthreads {
+            let ck = ck.clone();
+            let state = state.clone();
+            let go = go.clone();
+            let mut r = Rng::new(seed.wrapping_mul(131).wrapping_add(round * 89 + th as u64));
+            std::thread::spawn(move || {
+                while go.load(AO::SeqCst) == 0 {
+                    std::hint::spin_loop();
+                }
+                for i in 0..(if burst { 1u64 } else { 300 }) {
+                    let (code, op) = match if storm { 0 } else if burst { r.below(6) } else { r.below(10) } {
+                        0..=2 => (1, Op::Clear),
+                        3..=5 => (2, Op::Wait),
+                        6..=7 => (3, Op::Insert { idx: r.range(1, 5), conf: 0, val: 5_000_000 + th as u64 * 1000 + i, cost: 1, ttl_ns: 0, only: false }),
+                        8 => (4, Op::Remove { idx: r.range(1, 5), conf: 0 }),
+                        _ => (5, Op::Get { idx: r.range(1, 5), conf: 0 }),
+                    };
+                    state[th].store(code, AO::SeqCst);
+                    let _ = std::panic::catch_unwind(std::panic::AssertUnwindSafe(|| do_op(&ck, &op))).map_err(|_| state[th].store(100 + code, AO::SeqCst));
+                    if state[th].load(AO::SeqCst) >= 100 {
+                        return;
+                    }
+                }
+                state[th].store(0, AO::SeqCst);
+            });
+        }
+        {
+            let ck = ck.clone();
+            let state = state.clone();
+            let go = go.clone();
+            let spins = if burst { rng.below(200) } else { rng.below(20_000) };
+            std::thread::spawn(move || {
+                while go.load(AO::SeqCst) == 0 {
+                    std::hint::spin_loop();
+                }
+                for _ in 0..spins {
+                    std::hint::spin_loop();
+                }
+                state[nthreads].store(6, AO::SeqCst);
+                let r1 = do_op(&ck, &Op::Close);
+                let r2 = do_op(&ck, &Op::Close);
+                state[nthreads].store(if r1 == "ok" && r2 == "ok" { 0 } else { 106 }, AO::SeqCst);
+            });
+        }
+        go.store(1, AO::SeqCst);
+        let t0 = Instant::now();
+        while state.iter().any(|x| { let v = x.load(AO::SeqCst); v != 0 && v < 100 }) && t0.elapsed() < Duration::from_secs(10) {
+            std::thread::sleep(Duration::from_millis(1));
+        }
+        let fl = if is_async { "async" } else { "sync" };
+        let names = ["", "clear()", "wait()", "insert()", "remove()", "get()", "close()"];
+        for (th, x) in state.iter().enumerate() {
+            let v = x.load(AO::SeqCst);
+            if v == 9 || v == 0 {
+                continue;
+            }
+            let (what, code) = if v >= 100 { ("panicked or failed", (v - 100) as usize) } else { ("has not returned after 10 s", v as usize) };
+            let prop = match (v >= 100, code) { (true, 6) => "C12", (true, _) => "C20", (_, 1) => "C11", (_, 2) => "C10", _ => "C12" };
+            let msg = format!("{} buffer={} threads={}: {} of thread {} racing close() {}", fl, buf_cap, nthreads, names[code.min(6)], th, what);
+            fails.push((prop, round, msg.clone()));
+            if prop != "C12" {
+                fails.push(("C12", round, msg));
+            }
+        }
+        if state.iter().all(|x| x.load(AO::SeqCst) == 0) {
+            // closed: everything is inert and returns at once
+            let inert = do_op(&ck, &Op::Insert { idx: 1, conf: 0, val: 7_000_000, cost: 1, ttl_ns: 0, only: false }) == "false"
+                && do_op(&ck, &Op::Get { idx: 1, conf: 0 }) == "get:none"
+                && do_op(&ck, &Op::Wait) == "ok" && do_op(&ck, &Op::Clear) == "ok" && do_op(&ck, &Op::Remove { idx: 1, conf: 0 }) == "ok" && do_op(&ck, &Op::Close) == "ok";
+            if !inert {
+                fails.push(("C12", round, format!("{}: after close() returned Ok the cache is not inert", fl)));
+            }
+        }
+        total_ops += nthreads as u64 * 300;
+        t.step(&format!("stress lifecycle {} buffer={} threads={}", fl, buf_cap, nthreads));
+        t.mark_nontrivial();
+    }
     let mut seen = std::collections::HashSet::new();
     for (prop, round, msg) in &fails {
         if seen.insert((*prop, msg.clone())) {
             println!("MONITOR property={} case={} msg={}", prop, round, msg.replace(' ', "_"));
         }
     }
+    stretto::verif::install(None);
     format!(",\"model\":false,\"parallel_ops\":{},\"conservation_checks_failed\":{}", total_ops, fails.len())
 }
 
